@@ -14,35 +14,35 @@ OPTION_CHOICES = [
     ('time.report_start', [0, 3600]),
     ('time.start_clocktime', [0, 3600, 43200, 7200 + 1800]),
     ('time.statistic', ['NONE', 'AVERAGED', 'MINIMUM', 'MAXIMUM', 'RANGE']),
-    ('hydraulic.viscosity', [1.0, 1.1]),
-    ('hydraulic.specific_gravity', [1.0, 0.98]),
-    ('hydraulic.demand_multiplier', [1.0, 1.5, 0.8]),
+    ('hydraulic.viscosity', [1.0, 1.1, 1.0123456]),
+    ('hydraulic.specific_gravity', [1.0, 0.98, 0.9987654]),
+    ('hydraulic.demand_multiplier', [1.0, 1.5, 0.8, 1.2345678]),
     ('hydraulic.demand_model', ['DDA', 'PDA']),
     ('hydraulic.minimum_pressure', [0.0, 2.0]),
     ('hydraulic.required_pressure', [10.0, 20.0, 0.1]),
     ('hydraulic.pressure_exponent', [0.5, 0.7]),
-    ('hydraulic.emitter_exponent', [0.5, 0.6]),
+    ('hydraulic.emitter_exponent', [0.5, 0.6, 0.5123456]),
     ('hydraulic.trials', [200, 40]),
-    ('hydraulic.accuracy', [0.001, 0.0001]),
+    ('hydraulic.accuracy', [0.001, 0.0001, 1.234567e-5]),
     ('hydraulic.unbalanced', ['STOP', 'CONTINUE']),
     ('hydraulic.checkfreq', [2, 3]),
     ('hydraulic.maxcheck', [10, 12]),
-    ('hydraulic.damplimit', [0.0, 0.1]),
-    ('hydraulic.headerror', [0.0, 0.01]),
-    ('hydraulic.flowchange', [0.0, 0.001]),
+    ('hydraulic.damplimit', [0.0, 0.1, 0.0123456]),
+    ('hydraulic.headerror', [0.0, 0.01, 0.0012345]),
+    ('hydraulic.flowchange', [0.0, 0.001, 1.23456e-5]),
     ('quality.parameter', ['NONE', 'CHEMICAL', 'AGE']),
-    ('quality.diffusivity', [1.0, 1.2]),
-    ('quality.tolerance', [0.01, 0.02]),
+    ('quality.diffusivity', [1.0, 1.2, 1.0123456]),
+    ('quality.tolerance', [0.01, 0.02, 0.0123456]),
     ('reaction.bulk_order', [1.0, 2.0]),
     ('reaction.wall_order', [1.0, 0.0]),
     ('reaction.tank_order', [1.0, 2.0]),
-    ('reaction.bulk_coeff', [0.0, -1e-5]),
-    ('reaction.wall_coeff', [0.0, -2e-6]),
-    ('reaction.limiting_potential', [None, 1.0]),
-    ('reaction.roughness_correl', [None, 0.5]),
-    ('energy.global_price', [0, 3.0e-8]),
-    ('energy.global_efficiency', [None, 75.0]),
-    ('energy.demand_charge', [None, 0.5]),
+    ('reaction.bulk_coeff', [0.0, -1e-5, -1.234567e-6]),
+    ('reaction.wall_coeff', [0.0, -2e-6, -3.456789e-7]),
+    ('reaction.limiting_potential', [None, 1.0, 0.0012345]),
+    ('reaction.roughness_correl', [None, 0.5, 0.1234567]),
+    ('energy.global_price', [0, 3.0e-8, 2.7777777e-8]),
+    ('energy.global_efficiency', [None, 75.0, 66.666666]),
+    ('energy.demand_charge', [None, 0.5, 0.1234567]),
 ]
 
 
@@ -207,7 +207,7 @@ class Gen(object):
             v = {'PRV': 30.0, 'PSV': 25.0, 'PBV': 12.0, 'FCV': 0.01, 'TCV': 50.0}[l['vtype']]
             return {'link': lname, 'attr': 'setting', 'value': _r(v * rng.pick([0.5, 1.0, 1.5]), 6)}
         if l['type'] == 'pump' and rng.chance(0.3):
-            return {'link': lname, 'attr': 'setting', 'value': rng.pick([0.5, 0.8, 1.2])}
+            return {'link': lname, 'attr': 'base_speed', 'value': rng.pick([0.5, 0.8, 1.2])}
         vals = ['OPEN', 'CLOSED'] + (['ACTIVE'] if l['type'] == 'valve' else [])
         return {'link': lname, 'attr': 'status', 'value': rng.pick(vals)}
 
@@ -234,9 +234,19 @@ class Gen(object):
         if not self.m.links:
             return None
         if rng.chance(self.p.get('p_rule', 0.5)):
-            cond = self.simple_cond(rule=True)
-            for _ in range(rng.pick([0, 0, 1, 2])):
-                cond = {'t': rng.pick(['and', 'or']), 'a': cond, 'b': self.simple_cond(rule=True)}
+            # premise list as EPANET reads it: a conjunction of OR-groups
+            groups = []
+            for _ in range(rng.pick([1, 1, 1, 2, 2, 3])):
+                g = self.simple_cond(rule=True)
+                for _ in range(rng.pick([0, 0, 0, 1, 2])):
+                    g = {'t': 'or', 'a': g, 'b': self.simple_cond(rule=True)}
+                groups.append(g)
+            cond = groups[0]
+            for g in groups[1:]:
+                cond = {'t': 'and', 'a': cond, 'b': g}
+            if rng.chance(self.p.get('p_nested_condition', 0.0)):
+                # a grouping the rule text cannot express: (A AND B) OR C
+                cond = {'t': 'or', 'a': {'t': 'and', 'a': self.simple_cond(rule=True), 'b': self.simple_cond(rule=True)}, 'b': self.simple_cond(rule=True)}
             then = [self.action() for _ in range(rng.pick([1, 1, 2]))]
             els = [self.action() for _ in range(rng.pick([0, 0, 1, 2]))]
             spec = {'kind': 'rule', 'cond': cond, 'then': then, 'else': els, 'priority': rng.pick([0, 1, 2, 3, 3, 4, 5, 6])}
@@ -346,8 +356,20 @@ class Gen(object):
                 'start': self.rng.pick([None, 0, 3600]), 'end': self.rng.pick([None, 7200, 86400])}
 
     def op_set_option(self):
-        path, vals = self.rng.pick(OPTION_CHOICES)
-        return {'op': 'set_option', 'path': path, 'value': self.rng.pick(vals)}
+        rng = self.rng
+        if rng.chance(0.3):
+            # several options at once (the pressure-driven group is only written together)
+            if rng.chance(0.5):
+                items = [('hydraulic.demand_model', 'PDA'), ('hydraulic.minimum_pressure', rng.pick([0.0, 2.0, 3.5])),
+                         ('hydraulic.required_pressure', rng.pick([10.0, 20.0, 17.3])), ('hydraulic.pressure_exponent', rng.pick([0.5, 0.7]))]
+            else:
+                items = []
+                for _ in range(rng.irange(2, 6)):
+                    path, vals = rng.pick(OPTION_CHOICES)
+                    items.append((path, rng.pick(vals)))
+            return {'op': 'set_options', 'items': [list(x) for x in items]}
+        path, vals = rng.pick(OPTION_CHOICES)
+        return {'op': 'set_option', 'path': path, 'value': rng.pick(vals)}
 
     def op_restart(self):
         rng = self.rng
